@@ -36,6 +36,23 @@ def has_call(t, fname):
     return any(has_call(c, fname) for c in t["a"])
 
 
+def repeated_call(t):
+    """does the program contain the same call sub-term twice?"""
+    seen = set()
+    dup = [False]
+
+    def go(u):
+        if u["k"] == "call":
+            k = codec.dumps(u)
+            if k in seen:
+                dup[0] = True
+            seen.add(k)
+        for c in u["a"]:
+            go(c)
+    go(t)
+    return dup[0]
+
+
 def renumber_md(t, rnd):
     """Give every non-empty MetaData dictionary a distinct value (rendering step)."""
     if t["k"] == "call" and t["a"] and t["a"][0]["k"] == "name" and t["a"][0]["s"] == "MetaData" \
@@ -79,10 +96,16 @@ def run(prop, tier):
                 jobs.append((len(jobs), "remove_empty_md", p, {}))
             else:
                 jobs.append((len(jobs), plan["pass"], p, {}))
-                # every 4th program also as a DAG: equal sub-terms are one shared ast object (what func_adl
-                # itself produces when a substituted argument is used twice)
-                if len(jobs) % 4 == 0:
+                # as a DAG: equal sub-terms are one shared ast object (what func_adl itself produces when a
+                # substituted argument is used twice) - every program with a repeated call, and every 4th other one
+                if repeated_call(p) or len(jobs) % 4 == 0:
                     jobs.append((len(jobs), plan["pass"], p, {"shared": True}))
+                # the whole program twice in one query, as ONE shared object: (P, P)
+                if len(jobs) % 7 == 0:
+                    jobs.append((len(jobs), plan["pass"], codec.T("tuple", a=[p, p]), {"shared": True}))
+                # through one long-lived transformer object that has been used before
+                if prop == "C19" and len(jobs) % 3 == 0:
+                    jobs.append((len(jobs), plan["pass"], p, {"reuse": True}))
     recs = replay_passes.run_many(jobs)
     vrecs = []
     for r in recs:
